@@ -1,9 +1,9 @@
 (* JsonDocP.v -- proofs about JsonDoc: the generic RFC 8259 reader reads the compact rendering of a JSON value back (for
    every string reader that inverts json_print_string on a class of strings: the standard one and the model of
-   libyang's lexer), the RFC 7951 value of a forest converts back to the forest, and on canonical forests with every
-   node selected the printer's state machine writes exactly the rendering of that value. *)
+   libyang's lexer), the RFC 7951 value of a forest converts back to the forest, and on canonical forests the
+   printer's state machine writes, for every node selection, exactly the rendering of the value of the selected part. *)
 From LY Require Import Base Utf8 Utf8P XmlText XmlTextP JsonText JsonTextP StdText StdTextP Tree TreeP XmlDoc XmlDocP JsonDoc.
-From Coq Require Import ZifyBool ZifyNat ZifyN.
+From Coq Require Import Sorted ZifyBool ZifyNat ZifyN.
 Local Open Scope N_scope.
 
 (* induction on JSON values with hypotheses for the nested lists *)
@@ -1153,3 +1153,1218 @@ Proof.
   rewrite forallb_forall in *. intros c Hc. unfold valid_cp. rewrite (H2 c Hc), (H1 c Hc). reflexivity.
 Qed.
 
+(* ====================================================================================== *)
+(* the state machine of printer_json.c prints the rendering of the RFC 7951 value          *)
+(* ====================================================================================== *)
+Ltac fin_pair := apply f_equal2; [norm_app; rewrite ?app_nil_r; reflexivity|reflexivity].
+
+Section Equiv.
+  Variable sch : schema.
+  Variable t : doctabs.
+  Variable jk : list (sid * jkind).
+
+  Variable sel : dnode -> bool.
+
+  Notation jn := (json_node sch t jk sel).
+  Notation jsib := (json_siblings sch t jk sel).
+
+  (* siblings [a] followed by the siblings [b] (which the nodes of [a] see as following nodes) *)
+  Fixpoint sibs (par : option N) (prev a b : list dnode) (st : jst) : bytes * jst :=
+    match a with
+    | [] => ([], st)
+    | c :: a' =>
+        let '(o1, s1) := jn par prev (a' ++ b) st c in
+        let '(o2, s2) := sibs par (c :: prev) a' b s1 in
+        (o1 ++ o2, s2)
+    end.
+
+  Lemma jsib_sibs par prev l st : jsib par prev l st = sibs par prev l [] st.
+  Proof.
+    revert prev st. induction l as [|c l IH]; intros prev st; [reflexivity|].
+    cbn [json_siblings sibs]. rewrite app_nil_r. destruct (jn par prev l st c) as [o1 s1]. rewrite IH. reflexivity.
+  Qed.
+
+  Lemma sibs_app par a1 : forall prev a2 b st,
+    sibs par prev (a1 ++ a2) b st =
+    let '(o1, s1) := sibs par prev a1 (a2 ++ b) st in
+    let '(o2, s2) := sibs par (rev a1 ++ prev) a2 b s1 in
+    (o1 ++ o2, s2).
+  Proof.
+    induction a1 as [|c a1 IH]; intros prev a2 b st.
+    - cbn [app sibs rev]. destruct (sibs par prev a2 b st). reflexivity.
+    - cbn [app sibs]. rewrite <- app_assoc. destruct (jn par prev (a1 ++ a2 ++ b) st c) as [o1 s1].
+      rewrite IH. destruct (sibs par (c :: prev) a1 (a2 ++ b) s1) as [o2 s2].
+      cbn [rev]. rewrite <- app_assoc. cbn [app].
+      destruct (sibs par (rev a1 ++ c :: prev) a2 b s2) as [o3 s3]. rewrite app_assoc. reflexivity.
+  Qed.
+
+  (* json_print_node(): the pending metadata of a leaf-list is written when the next sibling is not an instance of it *)
+  Definition flushf (par : option N) (nexts : list dnode) (o : bytes) (st2 : jst) : bytes * jst :=
+    match j_first st2 with
+    | Some run =>
+        let fs := match run with x :: _ => d_sid x | [] => 0 end in
+        if match nexts with x :: _ => d_sid x =? fs | [] => false end then (o, st2)
+        else let '(o', st3) := jmeta_arr t sel st2 par run in (o ++ o', st_first st3 None)
+    | None => (o, st2)
+    end.
+
+  (* unfolding of the node printer: a node that is not printed *)
+  Lemma json_node_unsel par prev nexts st n :
+    sel n = false ->
+    jn par prev nexts st n =
+      if is_open st (d_sid n) && negb (match nexts with x :: _ => d_sid x =? d_sid n | [] => false end)
+      then flushf par nexts [93] (st_printed (st_close (st_dec st))) else flushf par nexts [] st.
+  Proof. intro H. destruct n as [s v d m ch]. cbn [json_node d_sid]. rewrite H. reflexivity. Qed.
+
+  (* ... and a node that is printed *)
+  Lemma json_node_all par prev nexts st s v d m ch :
+    sel (DN s v d m ch) = true ->
+    jn par prev nexts st (DN s v d m ch) =
+    let next_same := match nexts with x :: _ => d_sid x =? s | [] => false end in
+    let inner (st : jst) : bytes * jst :=
+      let o0 := (if is_open st s && (j_level st <=? j_lp st) then [44] else []) ++ [123] in
+      let '(o1, st1) := jattrs t (st_inc st) par s m true in
+      let '(o2, st2) := jsib (Some (node_mod t s)) [] ch st1 in
+      (o0 ++ o1 ++ o2 ++ [125], st_printed (st_dec st2)) in
+    let close_if_last (st : jst) : bytes * jst :=
+      if is_open st s && negb next_same then ([93], st_close (st_dec st)) else ([], st) in
+    let '(o, st1) :=
+      match kind_of sch s with
+      | KCont _ =>
+          let o1 := jmember t st par s false in
+          let '(o2, st2) := inner st in (o1 ++ o2, st2)
+      | KLeaf =>
+          let o1 := jmember t st par s false ++ jvalue_bytes (jkind_of jk s) v in
+          let '(o2, st2) := jattrs t (st_printed st) par s m false in (o1 ++ o2, st2)
+      | KList =>
+          let '(o1, sta) :=
+            if is_open st s then ([], st) else (jmember t st par s false ++ [91], st_inc (st_open st s)) in
+          let '(o2, stb) := inner sta in
+          let '(o3, stc) := close_if_last stb in
+          (o1 ++ o2 ++ o3, stc)
+      | KLeafList =>
+          let '(o1, sta) :=
+            if is_open st s then ([44], st) else (jmember t st par s false ++ [91], st_inc (st_open st s)) in
+          let o2 := jvalue_bytes (jkind_of jk s) v in
+          let stb := match j_first sta, m with
+                     | None, _ :: _ => st_first sta (Some (run_of prev (DN s v d m ch) nexts))
+                     | _, _ => sta
+                     end in
+          let '(o3, stc) := close_if_last stb in
+          (o1 ++ o2 ++ o3, stc)
+      | KAny => (jmember t st par s false ++ [123; 125], st_printed st)
+      end in
+    flushf par nexts o (st_printed st1).
+  Proof.
+    intro Hsel. cbn [json_node]. rewrite Hsel. cbn [negb]. unfold flushf.
+    match goal with |- context[(fix go (prev : list dnode) (l : list dnode) (st : jst) {struct l} : bytes * jst := _)] =>
+      set (go := (fix go (prev : list dnode) (l : list dnode) (st : jst) {struct l} : bytes * jst := _)) end.
+    assert (E : forall l prev st, go prev l st = jsib (Some (node_mod t s)) prev l st).
+    { induction l as [|c l IH]; intros pv st0; [reflexivity|].
+      unfold go at 1. cbn fix beta iota. fold go. cbn [json_siblings].
+      destruct (jn (Some (node_mod t s)) pv l st0 c) as [a sta]. rewrite IH. reflexivity. }
+    cbv zeta. destruct (kind_of sch s); try reflexivity.
+    - destruct (jattrs t (st_inc st) par s m true) as [o1 st1]. rewrite E. reflexivity.
+    - destruct (is_open st s).
+      + destruct (jattrs t (st_inc st) par s m true) as [o1 st1]. rewrite E. reflexivity.
+      + destruct (jattrs t (st_inc (st_inc (st_open st s))) par s m true) as [o1 st1]. rewrite E. reflexivity.
+  Qed.
+
+  (* ---------- rendering lemmas ---------- *)
+  Lemma jr_members_app a b first :
+    jr_members (a ++ b) first = jr_members a first ++ jr_members b (first && isnil a).
+  Proof.
+    revert first. induction a as [|[k x] a IH]; intro first; [cbn [app jr_members isnil]; rewrite andb_true_r; reflexivity|].
+    cbn [app jr_members isnil]. rewrite IH, andb_false_r. cbn [andb]. norm_app. reflexivity.
+  Qed.
+
+  Lemma jr_elems_app a b first :
+    jr_elems (a ++ b) first = jr_elems a first ++ jr_elems b (first && isnil a).
+  Proof.
+    revert first. induction a as [|x a IH]; intro first; [cbn [app jr_elems isnil]; rewrite andb_true_r; reflexivity|].
+    cbn [app jr_elems isnil]. rewrite IH, andb_false_r. cbn [andb]. norm_app. reflexivity.
+  Qed.
+
+  Definition mk_clean (l : N) (o : list sid) : jst := mk_jst l l o None.
+
+  Lemma st_printed_idem st : st_printed (st_printed st) = st_printed st.
+  Proof. reflexivity. Qed.
+
+  Lemma jcomma_printed st : jcomma (st_printed st) = [44].
+  Proof. unfold jcomma, st_printed. cbn [j_level j_lp]. rewrite N.leb_refl. reflexivity. Qed.
+
+  Definition meta_members (m : list (bytes * bytes)) : list (bytes * jval) :=
+    map (fun kv : bytes * bytes => (fst kv, JVstr (snd kv))) m.
+
+  Lemma jmetas_render m : forall st,
+    jmetas st m = (jr_members (meta_members m) (negb (j_level st <=? j_lp st)),
+                   match m with [] => st | _ => st_printed st end).
+  Proof.
+    induction m as [|[k v] m IH]; intro st; [reflexivity|].
+    cbn [jmetas meta_members map jr_members fst snd]. rewrite IH. cbn [st_printed j_level j_lp]. rewrite N.leb_refl. cbn [negb].
+    unfold jcomma. destruct (j_level st <=? j_lp st); cbn [negb app]; rewrite <- ?app_assoc; cbn [app];
+      (destruct m; [reflexivity|reflexivity]).
+  Qed.
+
+  Lemma jrender_meta_obj m : jrender (jmeta_obj m) = 123 :: jr_members (meta_members m) true ++ [125].
+  Proof. unfold jmeta_obj. rewrite jrender_obj. reflexivity. Qed.
+
+  (* the invariant of the counters: nothing is marked printed below the current level *)
+  Definition lp_ok (st : jst) : Prop := j_lp st <= j_level st.
+
+  Lemma jattrs_inner st par s m :
+    lp_ok st -> m <> [] ->
+    jattrs t st par s m true =
+      (jcomma st ++ [34; 64; 34; 58] ++ jrender (jmeta_obj m), mk_jst (j_level st) (j_level st) (j_open st) (j_first st)).
+  Proof.
+    intros Hl Hm. destruct m as [|kv m']; [contradiction|]. unfold jattrs. rewrite jmetas_render.
+    cbn [st_inc j_level j_lp]. unfold lp_ok in Hl.
+    assert (E : (j_level st + 1 <=? j_lp st) = false) by lia. rewrite E. cbn [negb].
+    rewrite jrender_meta_obj.
+    assert (Es : st_printed (st_dec (st_printed (st_inc st))) = mk_jst (j_level st) (j_level st) (j_open st) (j_first st)).
+    { unfold st_printed, st_dec, st_inc. cbn [j_level j_lp j_open j_first]. rewrite N.add_sub. reflexivity. }
+    rewrite Es. apply (f_equal (fun x => (x, mk_jst (j_level st) (j_level st) (j_open st) (j_first st)))). norm_app. reflexivity.
+  Qed.
+
+  Lemma jattrs_leaf st par s m :
+    lp_ok st -> m <> [] ->
+    jattrs t st par s m false =
+      (jmember t st par s true ++ jrender (jmeta_obj m), mk_jst (j_level st) (j_level st) (j_open st) (j_first st)).
+  Proof.
+    intros Hl Hm. destruct m as [|kv m']; [contradiction|]. unfold jattrs. rewrite jmetas_render.
+    cbn [st_inc j_level j_lp]. unfold lp_ok in Hl.
+    assert (E : (j_level st + 1 <=? j_lp st) = false) by lia. rewrite E. cbn [negb].
+    rewrite jrender_meta_obj.
+    assert (Es : st_printed (st_dec (st_printed (st_inc st))) = mk_jst (j_level st) (j_level st) (j_open st) (j_first st)).
+    { unfold st_printed, st_dec, st_inc. cbn [j_level j_lp j_open j_first]. rewrite N.add_sub. reflexivity. }
+    rewrite Es. apply (f_equal (fun x => (x, mk_jst (j_level st) (j_level st) (j_open st) (j_first st)))). norm_app. reflexivity.
+  Qed.
+
+  Lemma jattrs_nil st par s inner : jattrs t st par s [] inner = ([], st).
+  Proof. reflexivity. Qed.
+
+  Lemma jvalue_render SV k v : jterm_ok SV k v -> jvalue_bytes k v = jrender (jval_of_term k v).
+  Proof.
+    destruct k; cbn [jterm_ok jvalue_bytes jval_of_term].
+    - reflexivity.
+    - intros (_ & _ & Hne). destruct v; [contradiction|reflexivity].
+    - intros [->| ->]; reflexivity.
+    - intros ->. reflexivity.
+  Qed.
+
+  (* ---------- one node ---------- *)
+  (* the member name: json_print_member() asks LEVEL == 1 or json_nscmp(); they agree when only top-level nodes are at
+     level 1 *)
+  Definition Q (l : N) (par : option N) : Prop := l = 1 -> par = None.
+
+  Lemma jmember_key st par s attr :
+    Q (j_level st) par ->
+    jmember t st par s attr = jcomma st ++ 34 :: (if attr then [64] else []) ++ mname t par s ++ [34; 58].
+  Proof.
+    intro HQ. unfold jmember, mname, mod_name.
+    assert (E : (j_level st =? 1) || match par with None => true | Some pm => negb (pm =? node_mod t s) end =
+                match par with None => true | Some m => negb (m =? node_mod t s) end).
+    { destruct (j_level st =? 1) eqn:E1; [|reflexivity]. apply N.eqb_eq in E1. rewrite (HQ E1). reflexivity. }
+    rewrite E. destruct (match par with None => true | Some m => negb (m =? node_mod t s) end); norm_app; reflexivity.
+  Qed.
+
+  (* json_print_inner() *)
+  Definition inner_out (par : option N) (st : jst) (n : dnode) : bytes * jst :=
+    match n with
+    | DN s v d m ch =>
+        let o0 := (if is_open st s && (j_level st <=? j_lp st) then [44] else []) ++ [123] in
+        let '(o1, st1) := jattrs t (st_inc st) par s m true in
+        let '(o2, st2) := jsib (Some (node_mod t s)) [] ch st1 in
+        (o0 ++ o1 ++ o2 ++ [125], st_printed (st_dec st2))
+    end.
+
+  Definition no_first (st : jst) : Prop := j_first st = None.
+
+  Lemma node_leaf par prev nexts st s v d m ch :
+    sel (DN s v d m ch) = true -> kind_of sch s = KLeaf -> no_first st ->
+    jn par prev nexts st (DN s v d m ch) =
+      let o1 := jmember t st par s false ++ jvalue_bytes (jkind_of jk s) v in
+      let '(o2, st2) := jattrs t (st_printed st) par s m false in
+      (o1 ++ o2, st_printed st2).
+  Proof.
+    intros Hsel Hk Hf. rewrite (json_node_all _ _ _ _ _ _ _ _ _ Hsel), Hk. cbv zeta. unfold flushf.
+    assert (E : j_first (st_printed (snd (jattrs t (st_printed st) par s m false))) = None).
+    { destruct m as [|kv m']; [exact Hf|]. unfold jattrs. rewrite jmetas_render. cbn [snd]. exact Hf. }
+    destruct (jattrs t (st_printed st) par s m false) as [o2 st2]. cbn [snd] in E. rewrite E. reflexivity.
+  Qed.
+
+  Lemma inner_first par st n : j_first (snd (inner_out par st n)) = j_first (snd (jsib (Some (node_mod t (d_sid n))) [] (d_ch n)
+                                  (snd (jattrs t (st_inc st) par (d_sid n) (d_meta n) true)))).
+  Proof.
+    destruct n as [s v d m ch]. cbn [inner_out d_sid d_ch d_meta].
+    destruct (jattrs t (st_inc st) par s m true) as [o1 st1]. cbn [snd].
+    destruct (jsib (Some (node_mod t s)) [] ch st1) as [o2 st2]. reflexivity.
+  Qed.
+
+  Lemma node_cont par prev nexts st s v d m ch pr :
+    sel (DN s v d m ch) = true -> kind_of sch s = KCont pr ->
+    j_first (snd (inner_out par st (DN s v d m ch))) = None ->
+    jn par prev nexts st (DN s v d m ch) =
+      let '(o2, st2) := inner_out par st (DN s v d m ch) in (jmember t st par s false ++ o2, st_printed st2).
+  Proof.
+    intros Hsel Hk Hf. rewrite (json_node_all _ _ _ _ _ _ _ _ _ Hsel), Hk. cbv zeta. unfold flushf. cbn [inner_out] in Hf |- *.
+    destruct (jattrs t (st_inc st) par s m true) as [o1 st1].
+    destruct (jsib (Some (node_mod t s)) [] ch st1) as [o2 st2]. cbn [snd] in Hf.
+    assert (E : j_first (st_printed (st_printed (st_dec st2))) = None) by exact Hf. rewrite E. reflexivity.
+  Qed.
+
+  Lemma node_list par prev nexts st s v d m ch :
+    sel (DN s v d m ch) = true -> kind_of sch s = KList ->
+    let next_same := match nexts with x :: _ => d_sid x =? s | [] => false end in
+    let '(o1, sta) := if is_open st s then ([], st) else (jmember t st par s false ++ [91], st_inc (st_open st s)) in
+    j_first (snd (inner_out par sta (DN s v d m ch))) = None ->
+    jn par prev nexts st (DN s v d m ch) =
+      let '(o2, stb) := inner_out par sta (DN s v d m ch) in
+      let '(o3, stc) := if is_open stb s && negb next_same then ([93], st_close (st_dec stb)) else ([], stb) in
+      (o1 ++ o2 ++ o3, st_printed stc).
+  Proof.
+    intros Hsel Hk next_same. rewrite (json_node_all _ _ _ _ _ _ _ _ _ Hsel), Hk. cbv zeta. unfold flushf. fold next_same.
+    destruct (is_open st s).
+    - cbn [inner_out]. destruct (jattrs t (st_inc st) par s m true) as [o1 st1].
+      destruct (jsib (Some (node_mod t s)) [] ch st1) as [o2 st2]. cbn [snd]. intro Hf.
+      destruct (is_open (st_printed (st_dec st2)) s && negb next_same).
+      + assert (E : j_first (st_printed (st_close (st_dec (st_printed (st_dec st2))))) = None) by exact Hf. rewrite E. reflexivity.
+      + assert (E : j_first (st_printed (st_printed (st_dec st2))) = None) by exact Hf. rewrite E. reflexivity.
+    - cbn [inner_out]. destruct (jattrs t (st_inc (st_inc (st_open st s))) par s m true) as [o1 st1].
+      destruct (jsib (Some (node_mod t s)) [] ch st1) as [o2 st2]. cbn [snd]. intro Hf.
+      destruct (is_open (st_printed (st_dec st2)) s && negb next_same).
+      + assert (E : j_first (st_printed (st_close (st_dec (st_printed (st_dec st2))))) = None) by exact Hf. rewrite E. reflexivity.
+      + assert (E : j_first (st_printed (st_printed (st_dec st2))) = None) by exact Hf. rewrite E. reflexivity.
+  Qed.
+
+  (* ---------- the specification of json_print_inner on a node, and of a sibling list ---------- *)
+  Variable SV : bytes -> Prop.
+  Hypothesis Htabs : tabs_okb sch t = true.
+  (* the schema is a forest: a node's sid is larger than its parent's (sids are positions in a pre-order walk) *)
+  Hypothesis Hplt : forall s i q, lookup sch s = Some i -> si_parent i = Some q -> q < s.
+
+  Notation JD := (JDocN sch t jk SV).
+  Notation jval_of := (jnode_val sch t jk).
+  Notation PN := (prune_node sel).
+  Notation prl := (prune sel).
+
+  Lemma prl_cons x l : prl (x :: l) = (if sel x then [PN x] else []) ++ prl l.
+  Proof. reflexivity. Qed.
+  Lemma prl_app a b : prl (a ++ b) = prl a ++ prl b.
+  Proof. unfold prune. apply flat_map_app. Qed.
+  Lemma PN_sid n : d_sid (PN n) = d_sid n.
+  Proof. destruct n; reflexivity. Qed.
+  Lemma PN_meta n : d_meta (PN n) = d_meta n.
+  Proof. destruct n; reflexivity. Qed.
+
+  (* the innermost open array belongs to an ancestor (or to the node itself) *)
+  Definition open_le (o : list sid) (s : sid) : Prop := match o with x :: _ => x <= s | [] => True end.
+
+  Definition ISpec (n : dnode) : Prop := forall par st p,
+    is_term sch (d_sid n) = false -> CanonN sch p n -> JD n ->
+    no_first st -> lp_ok st -> 1 <= j_level st -> open_le (j_open st) (d_sid n) ->
+    inner_out par st n =
+      ((if is_open st (d_sid n) && (j_level st <=? j_lp st) then [44] else []) ++ jrender (jval_of (PN n)),
+       mk_jst (j_level st) (j_level st) (j_open st) None).
+
+  Definition pairs (l : list dnode) : list (dnode * jval) := map (fun c => (c, jval_of c)) l.
+
+  Definition SibSpec (l : list dnode) : Prop := forall par st p,
+    CanonAt sch p l -> Forall JD l ->
+    no_first st -> lp_ok st -> 1 <= j_level st -> Q (j_level st) par ->
+    match p with Some q => open_le (j_open st) q | None => j_open st = [] end ->
+    jsib par [] l st =
+      (jr_members (assemble sch t par (pairs (prl l))) (negb (j_level st <=? j_lp st)),
+       match prl l with [] => st | _ => mk_clean (j_level st) (j_open st) end).
+
+  Lemma jcomma_inc st : lp_ok st -> jcomma (st_inc st) = [].
+  Proof. unfold lp_ok, jcomma, st_inc. cbn [j_level j_lp]. intro H. assert (E : (j_level st + 1 <=? j_lp st) = false) by lia. rewrite E. reflexivity. Qed.
+
+  Lemma ispec_of_sib n : SibSpec (d_ch n) -> ISpec n.
+  Proof.
+    destruct n as [s v d m ch]. cbn [d_ch]. intros HS par st p Hnt HP HD Hnf Hlp Hlv Hop. cbn [d_sid] in *.
+    pose proof (CanonAt_children sch p _ HP) as HCch. cbn [d_sid d_ch] in HCch.
+    rewrite JDocN_unfold in HD. destruct HD as (Hany & Hval & Hmeta & Hnd & HDch).
+    assert (Hobj : jval_of (PN (DN s v d m ch)) =
+              JVobj ((match m with [] => [] | _ => [([64], jmeta_obj m)] end) ++ assemble sch t (Some (node_mod t s)) (pairs (prl ch)))).
+    { change (PN (DN s v d m ch)) with (DN s v d m (prl ch)).
+      rewrite jnode_val_unfold. unfold is_term in Hnt. destruct (kind_of sch s); cbn [is_term_kind] in Hnt; try discriminate Hnt; try reflexivity. }
+    rewrite Hobj, jrender_obj, jr_members_app. cbn [inner_out].
+    destruct m as [|kv m'].
+    - rewrite jattrs_nil.
+      rewrite (HS (Some (node_mod t s)) (st_inc st) (Some s) HCch HDch).
+      + cbn [st_inc j_level j_lp j_open]. unfold lp_ok in Hlp.
+        assert (E : (j_level st + 1 <=? j_lp st) = false) by lia. rewrite E. cbn [negb jr_members app andb isnil].
+        unfold no_first in Hnf.
+        match goal with |- (?a, ?b) = (?c, ?e) => assert (Hs : b = e) end.
+        { destruct (prl ch); unfold st_printed, st_dec, st_inc, mk_clean; cbn [j_level j_lp j_open j_first]; rewrite N.add_sub, ?Hnf; reflexivity. }
+        rewrite Hs. apply (f_equal (fun x => (x, mk_jst (j_level st) (j_level st) (j_open st) None))). norm_app. reflexivity.
+      + exact Hnf.
+      + unfold lp_ok, st_inc in *. cbn [j_level j_lp]. lia.
+      + cbn [st_inc j_level]. lia.
+      + intro E. cbn [st_inc j_level] in E. lia.
+      + exact Hop.
+    - rewrite (jattrs_inner (st_inc st) par s (kv :: m')); [|unfold lp_ok, st_inc in *; cbn [j_level j_lp]; lia|discriminate].
+      rewrite (jcomma_inc st Hlp).
+      rewrite (HS (Some (node_mod t s)) _ (Some s) HCch HDch).
+      + cbn [st_inc j_level j_lp j_open]. rewrite N.leb_refl. cbn [negb jr_members app andb isnil].
+        unfold no_first in Hnf.
+        match goal with |- (?a, ?b) = (?c, ?e) => assert (Hs : b = e) end.
+        { destruct (prl ch); unfold st_printed, st_dec, st_inc, mk_clean; cbn [j_level j_lp j_open j_first]; rewrite N.add_sub, ?Hnf; reflexivity. }
+        rewrite Hs. apply (f_equal (fun x => (x, mk_jst (j_level st) (j_level st) (j_open st) None))). norm_app. reflexivity.
+      + exact Hnf.
+      + unfold lp_ok. cbn [j_level j_lp st_inc]. lia.
+      + cbn [st_inc j_level]. lia.
+      + intro E. cbn [st_inc j_level] in E. lia.
+      + exact Hop.
+  Qed.
+
+  (* ---------- the metadata array of a leaf-list ---------- *)
+  Definition hm (n : dnode) : bool := negb (isnil (d_meta n)).
+  Definition mon (n : dnode) : jval := match d_meta n with [] => JVnull | m => jmeta_obj m end.
+  Lemma hm_PN n : hm (PN n) = hm n.
+  Proof. unfold hm. rewrite PN_meta. reflexivity. Qed.
+  Lemma mon_PN n : mon (PN n) = mon n.
+  Proof. unfold mon. rewrite PN_meta. reflexivity. Qed.
+
+  Lemma jmeta_entries_render run : forall st,
+    lp_ok st ->
+    jmeta_entries sel st run =
+      (jr_elems (map mon (prl run)) (negb (j_level st <=? j_lp st)),
+       match prl run with [] => st | _ => mk_jst (j_level st) (j_level st) (j_open st) (j_first st) end).
+  Proof.
+    induction run as [|n r IH]; intros st Hlp; [reflexivity|].
+    cbn [jmeta_entries]. rewrite prl_cons. destruct (sel n) eqn:Hsel; cbn [negb app]; [|apply IH, Hlp].
+    cbn [map jr_elems]. rewrite mon_PN.
+    assert (Hstep : forall o st1, st_printed st1 = mk_jst (j_level st) (j_level st) (j_open st) (j_first st) ->
+              o = jrender (mon n) ->
+              (let '(o3, st3) := jmeta_entries sel (st_printed st1) r in (jcomma st ++ o ++ o3, st3)) =
+              ((if negb (j_level st <=? j_lp st) then [] else [44]) ++ jrender (mon n) ++ jr_elems (map mon (prl r)) false,
+               mk_jst (j_level st) (j_level st) (j_open st) (j_first st))).
+    { intros o st1 Es ->. rewrite Es. rewrite IH by (unfold lp_ok; cbn; lia). cbn [j_level j_lp j_open j_first].
+      rewrite N.leb_refl. cbn [negb]. unfold jcomma.
+      assert (Est : match prl r with [] => mk_jst (j_level st) (j_level st) (j_open st) (j_first st)
+                    | _ :: _ => mk_jst (j_level st) (j_level st) (j_open st) (j_first st) end =
+                    mk_jst (j_level st) (j_level st) (j_open st) (j_first st)) by (destruct (prl r); reflexivity).
+      rewrite Est. destruct (j_level st <=? j_lp st); reflexivity. }
+    destruct (d_meta n) as [|kv m'] eqn:Em.
+    - apply (Hstep null_b st); [reflexivity|unfold mon; rewrite Em; reflexivity].
+    - rewrite jmetas_render. cbn [st_inc j_level j_lp]. unfold lp_ok in Hlp.
+      assert (E : (j_level st + 1 <=? j_lp st) = false) by lia. rewrite E. cbn [negb].
+      apply Hstep.
+      + unfold st_printed, st_dec, st_inc. cbn [j_level j_lp j_open j_first]. rewrite N.add_sub. reflexivity.
+      + unfold mon. rewrite Em, jrender_meta_obj. reflexivity.
+  Qed.
+
+  Lemma take_while_all (f : dnode -> bool) a b :
+    forallb f a = true -> match b with x :: _ => f x = false | [] => True end -> take_while f (a ++ b) = a.
+  Proof.
+    intros Ha Hb. induction a as [|x a IH].
+    - destruct b as [|y b']; [reflexivity|]. cbn [app take_while]. rewrite Hb. reflexivity.
+    - cbn [forallb] in Ha. apply andb_true_iff in Ha. destruct Ha as [H1 H2]. cbn [app take_while]. rewrite H1, (IH H2). reflexivity.
+  Qed.
+
+  (* ---------- one group of siblings ---------- *)
+  Section Group.
+    Variable par : option N.
+    Variable L : N.
+    Variable O : list sid.
+    Variable p : option sid.
+    Hypothesis HQ : Q L par.
+    Hypothesis HL : 1 <= L.
+    Hypothesis HO : match p with Some q => open_le O q | None => O = [] end.
+
+    Definition stc (lp : N) : jst := mk_jst L lp O None.
+
+    Lemma placed_facts n : CanonN sch p n ->
+      exists i, lookup sch (d_sid n) = Some i /\ si_parent i = p /\ open_le O (d_sid n) /\
+                (forall l lp f, is_open (mk_jst l lp O f) (d_sid n) = false).
+    Proof.
+      intro HC. pose proof (CanonN_Placed sch n p HC) as HP.
+      destruct (Placed_lookup sch p n HP) as (i & Hl & Hp). exists i. split; [exact Hl|]. split; [exact Hp|].
+      destruct p as [q|].
+      - pose proof (Hplt _ _ _ Hl Hp) as Hlt. unfold open_le in *. destruct O as [|x O']; [split; [exact I|reflexivity]|].
+        split; [lia|]. intros l lp f. unfold is_open. cbn [j_open]. apply N.eqb_neq. lia.
+      - subst O. split; [exact I|reflexivity].
+    Qed.
+
+    (* a node that is not printed, outside of an array of its schema node: nothing happens *)
+    Lemma skip_node prev nexts lp n :
+      sel n = false -> CanonN sch p n -> jn par prev nexts (stc lp) n = ([], stc lp).
+    Proof.
+      intros Hsel HP. destruct (placed_facts n HP) as (i & _ & _ & _ & Hno).
+      rewrite (json_node_unsel par prev nexts (stc lp) n Hsel). unfold stc. rewrite Hno. cbn [andb]. reflexivity.
+    Qed.
+
+    Definition leaf_members (n : dnode) : list (bytes * jval) :=
+      (mname t par (d_sid n), jval_of n) ::
+      (if negb (isnil (d_meta n)) then [(64 :: mname t par (d_sid n), jmeta_obj (d_meta n))] else []).
+
+    Lemma leaf_node prev nexts lp n :
+      sel n = true -> kind_of sch (d_sid n) = KLeaf -> CanonN sch p n -> JD n -> lp <= L ->
+      jn par prev nexts (stc lp) n = (jr_members (leaf_members (PN n)) (negb (L <=? lp)), mk_clean L O).
+    Proof.
+      intros Hsel Hk HP HD Hlp. destruct n as [s v d m ch]. cbn [d_sid d_meta] in *.
+      rewrite JDocN_unfold in HD. destruct HD as (_ & Hval & _).
+      unfold is_term in Hval. rewrite Hk in Hval. cbn [is_term_kind] in Hval.
+      rewrite (node_leaf par prev nexts (stc lp) s v d m ch Hsel Hk eq_refl). cbv zeta.
+      rewrite (jmember_key (stc lp) par s false HQ).
+      rewrite (jvalue_render SV _ _ Hval).
+      assert (Ev : jval_of (PN (DN s v d m ch)) = jval_of_term (jkind_of jk s) v).
+      { change (PN (DN s v d m ch)) with (DN s v d m (prl ch)). rewrite jnode_val_unfold, Hk. reflexivity. }
+      unfold leaf_members. rewrite Ev. change (PN (DN s v d m ch)) with (DN s v d m (prl ch)). cbn [d_sid d_meta].
+      destruct m as [|kv m'].
+      - rewrite jattrs_nil. cbn [isnil negb jr_members app]. unfold jcomma, stc, st_printed, mk_clean. cbn [j_level j_lp j_open j_first].
+        apply (f_equal (fun x => (x, mk_jst L L O None))). destruct (L <=? lp); cbn [negb app]; norm_app; rewrite ?app_nil_r; reflexivity.
+      - rewrite (jattrs_leaf (st_printed (stc lp)) par s (kv :: m')); [|unfold lp_ok; cbn; lia|discriminate].
+        rewrite (jmember_key (st_printed (stc lp)) par s true HQ), jcomma_printed.
+        cbn [isnil negb jr_members app]. unfold jcomma, stc, st_printed, mk_clean. cbn [j_level j_lp j_open j_first].
+        apply (f_equal (fun x => (x, mk_jst L L O None))). destruct (L <=? lp); cbn [negb app]; norm_app; rewrite ?app_nil_r; reflexivity.
+    Qed.
+
+    Lemma cont_node prev nexts lp n pr :
+      sel n = true -> kind_of sch (d_sid n) = KCont pr -> CanonN sch p n -> JD n -> ISpec n -> lp <= L ->
+      jn par prev nexts (stc lp) n = (jr_members [(mname t par (d_sid n), jval_of (PN n))] (negb (L <=? lp)), mk_clean L O).
+    Proof.
+      intros Hsel Hk HP HD HI Hlp. destruct (placed_facts n HP) as (i & Hl & Hp & Hop & Hno).
+      assert (Hnt : is_term sch (d_sid n) = false) by (unfold is_term; rewrite Hk; reflexivity).
+      pose proof (HI par (stc lp) p Hnt HP HD eq_refl Hlp HL Hop) as E.
+      destruct n as [s v d m ch]. cbn [d_sid] in *.
+      rewrite (node_cont par prev nexts (stc lp) s v d m ch pr Hsel Hk); [|rewrite E; reflexivity].
+      rewrite E. rewrite (jmember_key (stc lp) par s false HQ).
+      unfold stc at 2. rewrite Hno. cbn [andb app jr_members]. unfold jcomma, stc, st_printed, mk_clean. cbn [j_level j_lp j_open j_first].
+      apply (f_equal (fun x => (x, mk_jst L L O None))). destruct (L <=? lp); cbn [negb app]; norm_app; rewrite ?app_nil_r; reflexivity.
+    Qed.
+
+    Definition hd_not (s : sid) (b : list dnode) : Prop := match b with x :: _ => d_sid x <> s | [] => True end.
+
+    Lemma next_same_app s (r b : list dnode) :
+      Forall (fun n => d_sid n = s) r -> hd_not s b ->
+      match r ++ b with x :: _ => d_sid x =? s | [] => false end = negb (isnil r).
+    Proof.
+      intros Hr Hb. destruct r as [|y r']; cbn [app isnil negb].
+      - destruct b as [|x b']; [reflexivity|]. cbn [hd_not] in Hb. apply N.eqb_neq. exact Hb.
+      - inversion Hr; subst. apply N.eqb_refl.
+    Qed.
+
+    Definition RunOK (s : sid) (run : list dnode) : Prop :=
+      Forall (fun n => d_sid n = s /\ CanonN sch p n /\ JD n /\ ISpec n) run.
+
+    Lemma RunOK_sids s run : RunOK s run -> Forall (fun n => d_sid n = s) run.
+    Proof. intro H. apply Forall_forall. intros n Hn. unfold RunOK in H. rewrite Forall_forall in H. apply (H n Hn). Qed.
+
+    Lemma list_tail s run : forall prev b,
+      run <> [] -> RunOK s run -> kind_of sch s = KList -> hd_not s b -> open_le O s ->
+      sibs par prev run b (mk_jst (L + 1) (L + 1) (s :: O) None) = (jr_elems (map jval_of (prl run)) false ++ [93], mk_clean L O).
+    Proof.
+      induction run as [|y r IH]; intros prev b Hne HR Hk Hb Hop; [contradiction|].
+      inversion HR as [|? ? (Hs & HP & HD & HI) HRr]; subst.
+      pose proof (RunOK_sids _ _ HRr) as Er.
+      set (st := mk_jst (L + 1) (L + 1) (d_sid y :: O) None).
+      assert (Eo : is_open st (d_sid y) = true) by (unfold st, is_open; cbn [j_open]; apply N.eqb_refl).
+      cbn [sibs]. rewrite prl_cons. destruct (sel y) eqn:Hsel.
+      - assert (Hnt : is_term sch (d_sid y) = false) by (unfold is_term; rewrite Hk; reflexivity).
+        assert (Ein : inner_out par st y = ([44] ++ jrender (jval_of (PN y)), st)).
+        { rewrite (HI par st p Hnt HP HD eq_refl); [|unfold lp_ok, st; cbn; lia|unfold st; cbn; lia|unfold st, open_le; cbn; lia].
+          unfold st, is_open. cbn [j_open j_level j_lp]. rewrite N.eqb_refl, N.leb_refl. reflexivity. }
+        destruct y as [s v d m ch]. cbn [d_sid] in *.
+        pose proof (node_list par prev (r ++ b) st s v d m ch Hsel Hk) as NL. cbv zeta in NL.
+        rewrite Eo in NL. rewrite Ein in NL. specialize (NL eq_refl). rewrite NL. clear NL.
+        rewrite (next_same_app s r b Er Hb). rewrite Eo. cbn [andb].
+        destruct r as [|y' r'].
+        + cbn [isnil negb sibs map jr_elems app prune flat_map]. unfold st, st_close, st_dec, st_printed, mk_clean. cbn [j_level j_lp j_open j_first tl].
+          rewrite N.add_sub. fin_pair.
+        + cbn [isnil negb]. change (st_printed st) with st. unfold st. rewrite (IH _ b); [|discriminate|exact HRr|exact Hk|exact Hb|exact Hop].
+          cbn [map jr_elems app]. fin_pair.
+      - rewrite (json_node_unsel par prev (r ++ b) st y Hsel). rewrite Eo.
+        rewrite (next_same_app (d_sid y) r b Er Hb). cbn [andb app].
+        destruct r as [|y' r'].
+        + cbn [isnil negb sibs map jr_elems app prune flat_map]. unfold flushf, st, st_close, st_dec, st_printed, mk_clean. cbn [j_level j_lp j_open j_first tl].
+          rewrite N.add_sub. reflexivity.
+        + cbn [isnil negb]. unfold flushf. unfold st at 1. cbn [j_first]. unfold st.
+          rewrite (IH _ b); [|discriminate|exact HRr|exact Hk|exact Hb|exact Hop]. reflexivity.
+    Qed.
+
+    Lemma list_run s run : forall prev b lp,
+      RunOK s run -> kind_of sch s = KList -> hd_not s b -> lp <= L ->
+      sibs par prev run b (stc lp) =
+        (jr_members (if isnil (prl run) then [] else [(mname t par s, JVarr (map jval_of (prl run)))]) (negb (L <=? lp)),
+         if isnil (prl run) then stc lp else mk_clean L O).
+    Proof.
+      induction run as [|x run' IH]; intros prev b lp HR Hk Hb Hlp; [reflexivity|].
+      inversion HR as [|? ? (Hs & HP & HD & HI) HRr]; subst.
+      cbn [sibs]. rewrite prl_cons. destruct (sel x) eqn:Hsel.
+      2:{ rewrite (skip_node prev (run' ++ b) lp x Hsel HP). cbn [app]. rewrite (IH _ b lp HRr Hk Hb Hlp). reflexivity. }
+      cbn [app isnil]. clear IH.
+      destruct (placed_facts x HP) as (i & Hl & Hp & Hop & Hno).
+      assert (Hnt : is_term sch (d_sid x) = false) by (unfold is_term; rewrite Hk; reflexivity).
+      set (sta := mk_jst (L + 1) lp (d_sid x :: O) None).
+      set (stb := mk_jst (L + 1) (L + 1) (d_sid x :: O) None).
+      assert (Ein : inner_out par sta x = (jrender (jval_of (PN x)), stb)).
+      { rewrite (HI par sta p Hnt HP HD eq_refl); [|unfold lp_ok, sta; cbn; lia|unfold sta; cbn; lia|unfold sta, open_le; cbn; lia].
+        unfold sta, is_open. cbn [j_open j_level j_lp]. rewrite N.eqb_refl.
+        assert (E : (L + 1 <=? lp) = false) by lia. rewrite E. reflexivity. }
+      destruct x as [s v d m ch]. cbn [d_sid] in *.
+      pose proof (node_list par prev (run' ++ b) (stc lp) s v d m ch Hsel Hk) as NL. cbv zeta in NL.
+      unfold stc in NL. rewrite (Hno L lp None) in NL. change (st_inc (st_open (mk_jst L lp O None) s)) with sta in NL. rewrite Ein in NL. specialize (NL eq_refl).
+      unfold stc at 1. rewrite NL. clear NL.
+      pose proof (RunOK_sids _ _ HRr) as Er.
+      rewrite (next_same_app s run' b Er Hb).
+      assert (Eo : is_open stb s = true) by (unfold stb, is_open; cbn [j_open]; apply N.eqb_refl). rewrite Eo. cbn [andb].
+      fold (stc lp). rewrite (jmember_key (stc lp) par s false HQ).
+      destruct run' as [|y' r'].
+      - cbn [isnil negb sibs jr_members prune flat_map]. rewrite jrender_arr. cbn [map jr_elems app]. unfold stb, st_close, st_dec, st_printed, mk_clean, jcomma, stc. cbn [j_level j_lp j_open j_first tl].
+        rewrite N.add_sub. apply (f_equal (fun z => (z, mk_jst L L O None))).
+        destruct (L <=? lp); cbn [negb app]; norm_app; rewrite ?app_nil_r; reflexivity.
+      - cbn [isnil negb]. change (st_printed stb) with stb. unfold stb. rewrite (list_tail s (y' :: r') _ b); [|discriminate|exact HRr|exact Hk|exact Hb|exact Hop].
+        cbn [jr_members]. rewrite jrender_arr. cbn [map jr_elems app]. unfold jcomma, stc. cbn [j_level j_lp].
+        apply (f_equal (fun z => (z, mk_clean L O))).
+        destruct (L <=? lp); cbn [negb app]; norm_app; rewrite ?app_nil_r; reflexivity.
+    Qed.
+    (* ---- leaf-list ---- *)
+    Definition LLOK (s : sid) (run : list dnode) : Prop :=
+      Forall (fun n => d_sid n = s /\ CanonN sch p n /\ JD n) run.
+
+    Lemma LLOK_sids s run : LLOK s run -> Forall (fun n => d_sid n = s) run.
+    Proof. intro H. apply Forall_forall. intros n Hn. unfold LLOK in H. rewrite Forall_forall in H. apply (H n Hn). Qed.
+
+    (* [wp] = the printed instances of the run *)
+    Definition meta_part (s : sid) (wp : list dnode) : bytes :=
+      if existsb hm wp then [44] ++ 34 :: 64 :: mname t par s ++ [34; 58] ++ jrender (JVarr (map mon wp)) else [].
+
+    Lemma jmeta_arr_render s whole f :
+      whole <> [] -> Forall (fun n => d_sid n = s) whole ->
+      jmeta_arr t sel (mk_jst L L O f) par whole =
+        ([44] ++ 34 :: 64 :: mname t par s ++ [34; 58] ++ jrender (JVarr (map mon (prl whole))), mk_jst L L O f).
+    Proof.
+      intros Hne Hs. destruct whole as [|x w]; [contradiction|]. pose proof (Forall_inv Hs) as Hx. cbn beta in Hx.
+      unfold jmeta_arr. rewrite Hx.
+      rewrite (jmember_key (mk_jst L L O f) par s true HQ).
+      rewrite jmeta_entries_render by (unfold lp_ok; cbn; lia). cbn [st_inc j_level j_lp j_open j_first].
+      assert (E : (L + 1 <=? L) = false) by lia. rewrite E. cbn [negb]. rewrite jrender_arr.
+      unfold jcomma, st_printed, st_dec. cbn [j_level j_lp j_open j_first]. rewrite N.leb_refl.
+      destruct (prl (x :: w)); cbn [st_inc j_level j_lp j_open j_first]; rewrite N.add_sub; fin_pair.
+    Qed.
+
+    (* the pending metadata is written after the last instance ... *)
+    Lemma flush_last s whole b o :
+      whole <> [] -> Forall (fun n => d_sid n = s) whole -> hd_not s b ->
+      flushf par b o (mk_jst L L O (if existsb hm (prl whole) then Some whole else None)) =
+        (o ++ meta_part s (prl whole), mk_clean L O).
+    Proof.
+      intros Hne Hs Hb. unfold flushf, meta_part. destruct (existsb hm (prl whole)); cbn [j_first].
+      - assert (Ehd : match b with x :: _ => d_sid x =? match whole with [] => 0 | x0 :: _ => d_sid x0 end | [] => false end = false).
+        { destruct whole as [|w0 wr]; [contradiction|]. pose proof (Forall_inv Hs) as Hw0. cbn beta in Hw0. rewrite Hw0.
+          destruct b as [|x b']; [reflexivity|]. cbn [hd_not] in Hb. apply N.eqb_neq, Hb. }
+        rewrite Ehd. rewrite (jmeta_arr_render s whole _ Hne Hs). unfold st_first, mk_clean. cbn [j_level j_lp j_open]. reflexivity.
+      - rewrite app_nil_r. reflexivity.
+    Qed.
+
+    (* ... and not before *)
+    Lemma flush_mid s whole y r o st :
+      whole <> [] -> Forall (fun n => d_sid n = s) whole -> d_sid y = s ->
+      j_first st = None \/ j_first st = Some whole ->
+      flushf par (y :: r) o st = (o, st).
+    Proof.
+      intros Hne Hs Hy [E|E]; unfold flushf; rewrite E; [reflexivity|].
+      destruct whole as [|w0 wr]; [contradiction|]. pose proof (Forall_inv Hs) as Hw0. cbn beta in Hw0. rewrite Hw0, Hy, N.eqb_refl. reflexivity.
+    Qed.
+
+    Lemma ll_val n : kind_of sch (d_sid n) = KLeafList -> JD n ->
+      jvalue_bytes (jkind_of jk (d_sid n)) (d_val n) = jrender (jval_of (PN n)).
+    Proof.
+      intros Hk HD. destruct n as [s v d m ch]. cbn [d_sid d_val] in *. rewrite JDocN_unfold in HD. destruct HD as (_ & Hval & _).
+      unfold is_term in Hval. rewrite Hk in Hval. cbn [is_term_kind] in Hval.
+      change (PN (DN s v d m ch)) with (DN s v d m (prl ch)).
+      rewrite (jvalue_render SV _ _ Hval), jnode_val_unfold, Hk. reflexivity.
+    Qed.
+
+    Lemma prl_rev_cons y l : prl (rev (y :: l)) = prl (rev l) ++ (if sel y then [PN y] else []).
+    Proof. cbn [rev]. rewrite prl_app, prl_cons. cbn [prune flat_map]. rewrite app_nil_r. reflexivity. Qed.
+
+    Lemma run_of_whole s done prev0 y r b :
+      Forall (fun n => d_sid n = s) done -> Forall (fun n => d_sid n = s) r -> d_sid y = s ->
+      hd_not s prev0 -> hd_not s b ->
+      run_of (done ++ prev0) y (r ++ b) = rev done ++ y :: r.
+    Proof.
+      intros Hd Er Hy Hp0 Hb. unfold run_of. rewrite Hy.
+      rewrite (take_while_all (has_sid s) done prev0).
+      - rewrite (take_while_all (has_sid s) r b); [reflexivity| |].
+        + apply forallb_forall. intros n Hn. rewrite Forall_forall in Er. unfold has_sid. apply N.eqb_eq, Er, Hn.
+        + destruct b as [|x b']; [exact I|]. cbn [hd_not] in Hb. unfold has_sid. apply N.eqb_neq, Hb.
+      - apply forallb_forall. intros n Hn. rewrite Forall_forall in Hd. unfold has_sid. apply N.eqb_eq, Hd, Hn.
+      - destruct prev0 as [|x p']; [exact I|]. cbn [hd_not] in Hp0. unfold has_sid. apply N.eqb_neq, Hp0.
+    Qed.
+
+    Lemma ll_tail s run : forall done prev0 b,
+      run <> [] -> LLOK s run -> Forall (fun n => d_sid n = s) done -> kind_of sch s = KLeafList ->
+      hd_not s prev0 -> hd_not s b ->
+      let whole := rev done ++ run in
+      let F := if existsb hm (prl (rev done)) then Some whole else None in
+      sibs par (done ++ prev0) run b (mk_jst (L + 1) (L + 1) (s :: O) F) =
+        (jr_elems (map jval_of (prl run)) false ++ [93] ++ meta_part s (prl whole), mk_clean L O).
+    Proof.
+      induction run as [|y r IH]; intros done prev0 b Hne HR Hd Hk Hp0 Hb whole F; [contradiction|].
+      inversion HR as [|? ? (Hs & HP & HD) HRr]; subst.
+      pose proof (LLOK_sids _ _ HRr) as Er.
+      assert (Hwhole : Forall (fun n => d_sid n = d_sid y) whole).
+      { subst whole. apply Forall_app. split; [apply Forall_rev, Hd|constructor; [reflexivity|exact Er]]. }
+      assert (Hwne : whole <> []) by (subst whole; destruct (rev done); discriminate).
+      pose proof (run_of_whole (d_sid y) done prev0 y r b Hd Er eq_refl Hp0 Hb) as Erun. fold whole in Erun.
+      assert (Ewh : rev (y :: done) ++ r = whole) by (subst whole; cbn [rev]; rewrite <- app_assoc; reflexivity).
+      assert (Eo : forall f, is_open (mk_jst (L + 1) (L + 1) (d_sid y :: O) f) (d_sid y) = true) by (intro f; unfold is_open; cbn [j_open]; apply N.eqb_refl).
+      set (F' := if existsb hm (prl (rev (y :: done))) then Some whole else None).
+      assert (HF : forall (X : option (list dnode)), X = F \/ X = F' -> X = None \/ X = Some whole).
+      { intros X [->| ->]; [subst F; destruct (existsb hm (prl (rev done)))|subst F'; destruct (existsb hm (prl (rev (y :: done))))]; auto. }
+      (* the state after the node, whether it is printed or not *)
+      assert (Hlast : forall o, r = [] ->
+                flushf par b o (mk_jst L L O F') = (o ++ meta_part (d_sid y) (prl whole), mk_clean L O)).
+      { intros o ->. subst F'. rewrite app_nil_r in Ewh. rewrite Ewh. apply flush_last; assumption. }
+      cbn [sibs]. rewrite prl_cons. destruct (sel y) eqn:Hsel.
+      - pose proof (ll_val y Hk HD) as Hval.
+        destruct y as [s v d m ch]. cbn [d_sid d_val] in *.
+        rewrite (json_node_all _ _ _ _ _ _ _ _ _ Hsel), Hk. cbv zeta.
+        rewrite Eo. rewrite (next_same_app s r b Er Hb). rewrite Hval.
+        assert (EF : match j_first (mk_jst (L + 1) (L + 1) (s :: O) F), m with
+                     | None, _ :: _ => st_first (mk_jst (L + 1) (L + 1) (s :: O) F) (Some (run_of (done ++ prev0) (DN s v d m ch) (r ++ b)))
+                     | _, _ => mk_jst (L + 1) (L + 1) (s :: O) F end = mk_jst (L + 1) (L + 1) (s :: O) F').
+        { rewrite Erun. subst F F'. rewrite prl_rev_cons, Hsel, existsb_app. cbn [existsb]. rewrite hm_PN, orb_false_r.
+          destruct (existsb hm (prl (rev done))) eqn:Ee; cbn [orb j_first].
+          - destruct m; reflexivity.
+          - unfold hm. cbn [d_meta]. destruct m; reflexivity. }
+        rewrite EF. rewrite Eo. cbn [andb].
+        destruct r as [|y' r'].
+        + cbn [isnil negb sibs map jr_elems app prune flat_map]. rewrite app_nil_r.
+          unfold st_close, st_dec, st_printed. cbn [j_level j_lp j_open j_first tl]. rewrite N.add_sub.
+          rewrite (Hlast _ eq_refl). fin_pair.
+        + cbn [isnil negb app]. unfold st_printed. cbn [j_level j_lp j_open j_first].
+          rewrite (flush_mid s whole y' (r' ++ b) _ _ Hwne Hwhole (Forall_inv Er)); [|cbn [j_first]; apply HF; right; reflexivity].
+          pose proof (IH (DN s v d m ch :: done) prev0 b ltac:(discriminate) HRr ltac:(constructor; [reflexivity|exact Hd]) Hk Hp0 Hb) as IH'.
+          cbv zeta in IH'. rewrite Ewh in IH'. fold F' in IH'. cbn [app] in IH'. rewrite IH'.
+          cbn [map jr_elems]. fin_pair.
+      - rewrite (json_node_unsel par (done ++ prev0) (r ++ b) _ y Hsel). rewrite Eo.
+        rewrite (next_same_app (d_sid y) r b Er Hb). cbn [andb app].
+        assert (EF : F' = F).
+        { subst F F'. rewrite prl_rev_cons, Hsel, app_nil_r. reflexivity. }
+        destruct r as [|y' r'].
+        + cbn [isnil negb sibs map jr_elems app prune flat_map].
+          unfold st_close, st_dec, st_printed. cbn [j_level j_lp j_open j_first tl]. rewrite N.add_sub.
+          rewrite <- EF. rewrite (Hlast _ eq_refl). fin_pair.
+        + cbn [isnil negb].
+          rewrite (flush_mid (d_sid y) whole y' (r' ++ b) _ _ Hwne Hwhole (Forall_inv Er)); [|cbn [j_first]; apply HF; left; reflexivity].
+          pose proof (IH (y :: done) prev0 b ltac:(discriminate) HRr ltac:(constructor; [reflexivity|exact Hd]) Hk Hp0 Hb) as IH'.
+          cbv zeta in IH'. rewrite Ewh in IH'. fold F' in IH'. rewrite EF in IH'. cbn [app] in IH'. rewrite IH'.
+          reflexivity.
+    Qed.
+
+    Definition ll_members (s : sid) (wp : list dnode) : list (bytes * jval) :=
+      (mname t par s, JVarr (map jval_of wp)) ::
+      (if existsb hm wp then [(64 :: mname t par s, JVarr (map mon wp))] else []).
+
+    Lemma ll_run s run : forall done prev0 b lp,
+      LLOK s run -> Forall (fun n => d_sid n = s) done -> prl (rev done) = [] -> kind_of sch s = KLeafList ->
+      hd_not s prev0 -> hd_not s b -> lp <= L ->
+      sibs par (done ++ prev0) run b (stc lp) =
+        (jr_members (if isnil (prl run) then [] else ll_members s (prl run)) (negb (L <=? lp)),
+         if isnil (prl run) then stc lp else mk_clean L O).
+    Proof.
+      induction run as [|x run' IH]; intros done prev0 b lp HR Hd Hdn Hk Hp0 Hb Hlp; [reflexivity|].
+      inversion HR as [|? ? (Hs & HP & HD) HRr]; subst.
+      cbn [sibs]. rewrite prl_cons. destruct (sel x) eqn:Hsel.
+      2:{ rewrite (skip_node (done ++ prev0) (run' ++ b) lp x Hsel HP). cbn [app].
+          pose proof (IH (x :: done) prev0 b lp HRr ltac:(constructor; [reflexivity|exact Hd])) as IH'. cbn [app] in IH'.
+          rewrite IH'; [reflexivity| |exact Hk|exact Hp0|exact Hb|exact Hlp].
+          rewrite prl_rev_cons, Hsel, Hdn. reflexivity. }
+      cbn [app isnil]. clear IH.
+      destruct (placed_facts x HP) as (i & Hl & Hp & Hop & Hno).
+      pose proof (LLOK_sids _ _ HRr) as Er.
+      pose (whole := rev done ++ x :: run').
+      assert (Hwhole : Forall (fun n => d_sid n = d_sid x) whole).
+      { subst whole. apply Forall_app. split; [apply Forall_rev, Hd|constructor; [reflexivity|exact Er]]. }
+      assert (Hwne : whole <> []) by (subst whole; destruct (rev done); discriminate).
+      pose proof (run_of_whole (d_sid x) done prev0 x run' b Hd Er eq_refl Hp0 Hb) as Erun. fold whole in Erun.
+      assert (Epw : prl whole = PN x :: prl run').
+      { subst whole. rewrite prl_app, Hdn, prl_cons, Hsel. reflexivity. }
+      pose proof (ll_val x Hk HD) as Hval.
+      destruct x as [s v d m ch]. cbn [d_sid d_val] in *.
+      rewrite (json_node_all _ _ _ _ _ _ _ _ _ Hsel), Hk. cbv zeta. unfold stc. rewrite (Hno L lp None).
+      rewrite (next_same_app s run' b Er Hb). rewrite Hval.
+      change (st_inc (st_open (mk_jst L lp O None) s)) with (mk_jst (L + 1) lp (s :: O) None).
+      set (F' := if hm (DN s v d m ch) then Some whole else None).
+      assert (EF : match j_first (mk_jst (L + 1) lp (s :: O) None), m with
+                   | None, _ :: _ => st_first (mk_jst (L + 1) lp (s :: O) None) (Some (run_of (done ++ prev0) (DN s v d m ch) (run' ++ b)))
+                   | _, _ => mk_jst (L + 1) lp (s :: O) None end = mk_jst (L + 1) lp (s :: O) F').
+      { rewrite Erun. subst F'. unfold hm. cbn [d_meta j_first]. destruct m; reflexivity. }
+      rewrite EF.
+      assert (Eo : forall l f, is_open (mk_jst (L + 1) l (s :: O) f) s = true) by (intros l f; unfold is_open; cbn [j_open]; apply N.eqb_refl).
+      rewrite Eo. cbn [andb].
+      fold (stc lp). rewrite (jmember_key (stc lp) par s false HQ).
+      unfold ll_members. cbn [jr_members]. rewrite jrender_arr.
+      assert (EhmD : existsb hm (prl (rev (DN s v d m ch :: done))) = hm (DN s v d m ch)).
+      { rewrite prl_rev_cons, Hsel, Hdn. cbn [app existsb]. rewrite hm_PN. apply orb_false_r. }
+      destruct run' as [|y' r'].
+      - cbn [isnil negb sibs map jr_elems app prune flat_map].
+        unfold st_close, st_dec, st_printed. cbn [j_level j_lp j_open j_first tl]. rewrite N.add_sub.
+        assert (Ehm : existsb hm (prl whole) = hm (DN s v d m ch)) by (rewrite Epw; cbn [prune flat_map existsb]; rewrite hm_PN; apply orb_false_r).
+        subst F'. rewrite <- Ehm. rewrite (flush_last s whole b _ Hwne Hwhole Hb).
+        unfold meta_part. rewrite Epw. cbn [prune flat_map map existsb jr_elems]. rewrite hm_PN, orb_false_r.
+        unfold jcomma, stc. cbn [j_level j_lp].
+        apply (f_equal (fun z => (z, mk_clean L O))).
+        destruct (hm (DN s v d m ch)); destruct (L <=? lp); cbn [negb app jr_members]; norm_app; rewrite ?app_nil_r; reflexivity.
+      - cbn [isnil negb app]. unfold st_printed. cbn [j_level j_lp j_open j_first].
+        rewrite (flush_mid s whole y' (r' ++ b) _ _ Hwne Hwhole (Forall_inv Er)); [|cbn [j_first]; subst F'; destruct (hm (DN s v d m ch)); auto].
+        pose proof (ll_tail s (y' :: r') (DN s v d m ch :: done) prev0 b ltac:(discriminate) HRr ltac:(constructor; [reflexivity|exact Hd]) Hk Hp0 Hb) as T.
+        cbv zeta in T. rewrite EhmD in T. cbn [app] in T.
+        assert (Ewh : rev (DN s v d m ch :: done) ++ y' :: r' = whole) by (subst whole; cbn [rev]; rewrite <- app_assoc; reflexivity).
+        rewrite Ewh in T. fold F' in T. rewrite T. unfold meta_part. rewrite Epw.
+        unfold jcomma, stc. cbn [j_level j_lp map jr_elems existsb].
+        apply (f_equal (fun z => (z, mk_clean L O))).
+        destruct (hm (PN (DN s v d m ch)) || existsb hm (prl (y' :: r'))); destruct (L <=? lp); cbn [negb app jr_members]; norm_app; rewrite ?app_nil_r; reflexivity.
+    Qed.
+    (* ---- any group ---- *)
+    Definition NodeOK (n : dnode) : Prop := CanonN sch p n /\ JD n /\ ISpec n.
+
+    Lemma pairs_map_fst run : map fst (pairs run) = run.
+    Proof. unfold pairs. rewrite map_map. cbn [fst]. apply map_id. Qed.
+    Lemma pairs_app a b : pairs (a ++ b) = pairs a ++ pairs b.
+    Proof. apply map_app. Qed.
+
+    Lemma prl_sids s run : Forall (fun n => d_sid n = s) run -> Forall (fun n => d_sid n = s) (prl run).
+    Proof.
+      induction 1 as [|x l Hx _ IH]; [constructor|]. rewrite prl_cons. apply Forall_app. split; [|exact IH].
+      destruct (sel x); constructor; [rewrite PN_sid; exact Hx|constructor].
+    Qed.
+
+    Lemma leaf_group s run : forall prev b lp,
+      Forall (fun n => d_sid n = s /\ NodeOK n) run -> kind_of sch s = KLeaf -> lp <= L ->
+      sibs par prev run b (stc lp) =
+        (jr_members (flat_map leaf_members (prl run)) (negb (L <=? lp)), match prl run with [] => stc lp | _ => mk_clean L O end).
+    Proof.
+      induction run as [|y r IH]; intros prev b lp Hall Hk Hlp; [reflexivity|].
+      inversion Hall as [|? ? (Hs & HP & HD & _) Hr]; subst.
+      cbn [sibs]. rewrite prl_cons. destruct (sel y) eqn:Hsel.
+      2:{ rewrite (skip_node prev (r ++ b) lp y Hsel HP). cbn [app]. rewrite (IH _ b lp Hr Hk Hlp). reflexivity. }
+      cbn [app flat_map]. rewrite (leaf_node prev (r ++ b) lp y Hsel Hk HP HD Hlp).
+      change (mk_clean L O) with (stc L). rewrite (IH _ b L Hr Hk (N.le_refl L)).
+      rewrite jr_members_app. rewrite N.leb_refl. cbn [negb].
+      assert (En : isnil (leaf_members (PN y)) = false) by reflexivity. rewrite En, andb_false_r.
+      destruct (prl r); reflexivity.
+    Qed.
+
+    Lemma cont_group s run pr : forall prev b lp,
+      Forall (fun n => d_sid n = s /\ NodeOK n) run -> kind_of sch s = KCont pr -> lp <= L ->
+      sibs par prev run b (stc lp) =
+        (jr_members (map (fun n => (mname t par s, jval_of n)) (prl run)) (negb (L <=? lp)),
+         match prl run with [] => stc lp | _ => mk_clean L O end).
+    Proof.
+      induction run as [|y r IH]; intros prev b lp Hall Hk Hlp; [reflexivity|].
+      inversion Hall as [|? ? (Hs & HP & HD & HI) Hr]; subst.
+      cbn [sibs]. rewrite prl_cons. destruct (sel y) eqn:Hsel.
+      2:{ rewrite (skip_node prev (r ++ b) lp y Hsel HP). cbn [app]. rewrite (IH _ b lp Hr Hk Hlp). reflexivity. }
+      cbn [app map]. rewrite (cont_node prev (r ++ b) lp y pr Hsel Hk HP HD HI Hlp).
+      change (mk_clean L O) with (stc L). rewrite (IH _ b L Hr Hk (N.le_refl L)).
+      rewrite N.leb_refl. cbn [negb].
+      change ((mname t par (d_sid y), jval_of (PN y)) :: map (fun n => (mname t par (d_sid y), jval_of n)) (prl r))
+        with ([(mname t par (d_sid y), jval_of (PN y))] ++ map (fun n => (mname t par (d_sid y), jval_of n)) (prl r)).
+      rewrite jr_members_app. cbn [isnil]. rewrite andb_false_r. destruct (prl r); reflexivity.
+    Qed.
+
+    (* the members of a group of siblings of which [rp] are printed *)
+    Definition gmem (s : sid) (rp : list dnode) : list (bytes * jval) :=
+      if isnil rp then [] else group_members sch t par (s, pairs rp).
+
+    Lemma group_spec s run prev b lp :
+      run <> [] -> Forall (fun n => d_sid n = s /\ NodeOK n) run -> hd_not s prev -> hd_not s b -> lp <= L ->
+      sibs par prev run b (stc lp) =
+        (jr_members (gmem s (prl run)) (negb (L <=? lp)), if isnil (prl run) then stc lp else mk_clean L O).
+    Proof.
+      intros Hne Hall Hp Hb Hlp. destruct run as [|x run']; [contradiction|].
+      pose proof (Forall_inv Hall) as (Hsx & HPx & HDx & HIx).
+      assert (Hkany : kind_of sch s <> KAny).
+      { destruct x as [s0 v d m ch]. cbn [d_sid] in Hsx. subst s0. rewrite JDocN_unfold in HDx. apply HDx. }
+      assert (Hsids : Forall (fun n => d_sid n = s) (x :: run')).
+      { apply Forall_forall. intros n Hn. rewrite Forall_forall in Hall. apply (Hall n Hn). }
+      pose proof (prl_sids s _ Hsids) as Hps.
+      unfold gmem. cbn [group_members]. destruct (kind_of sch s) eqn:Hk; [| | | |contradiction].
+      - rewrite (cont_group s (x :: run') presence prev b lp Hall Hk Hlp).
+        destruct (prl (x :: run')) as [|z rp]; [reflexivity|]. cbn [isnil]. unfold pairs. rewrite map_map. reflexivity.
+      - rewrite (leaf_group s (x :: run') prev b lp Hall Hk Hlp).
+        destruct (prl (x :: run')) as [|z rp]; [reflexivity|]. cbn [isnil].
+        assert (E : forall l, flat_map (fun x0 : dnode * jval => (mname t par s, snd x0) ::
+                       (if has_meta x0 then [(64 :: mname t par s, jmeta_obj (d_meta (fst x0)))] else [])) (pairs l) =
+                     flat_map (fun n => (mname t par s, jval_of n) ::
+                       (if negb (isnil (d_meta n)) then [(64 :: mname t par s, jmeta_obj (d_meta n))] else [])) l).
+        { induction l as [|n l IHl]; [reflexivity|]. cbn [pairs map flat_map]. fold (pairs l). rewrite IHl. reflexivity. }
+        rewrite E.
+        assert (E2 : flat_map leaf_members (z :: rp) =
+                     flat_map (fun n => (mname t par s, jval_of n) ::
+                       (if negb (isnil (d_meta n)) then [(64 :: mname t par s, jmeta_obj (d_meta n))] else [])) (z :: rp)).
+        { clear -Hps. induction Hps as [|n l Hs _ IHl]; [reflexivity|]. cbn [flat_map]. rewrite IHl. unfold leaf_members. rewrite Hs. reflexivity. }
+        rewrite E2. reflexivity.
+      - assert (HLL : LLOK s (x :: run')).
+        { apply Forall_forall. intros n Hn. rewrite Forall_forall in Hall. destruct (Hall n Hn) as (H1 & H2 & H3 & _). repeat split; assumption. }
+        pose proof (ll_run s (x :: run') [] prev b lp HLL ltac:(constructor) eq_refl Hk Hp Hb Hlp) as R. cbn [app] in R. rewrite R.
+        destruct (prl (x :: run')) as [|z rp]; [reflexivity|]. cbn [isnil]. unfold ll_members.
+        assert (E1 : map snd (pairs (z :: rp)) = map jval_of (z :: rp)) by (unfold pairs; rewrite map_map; reflexivity).
+        assert (E2 : existsb has_meta (pairs (z :: rp)) = existsb hm (z :: rp)).
+        { generalize (z :: rp). induction l as [|n l IHl]; [reflexivity|]. cbn [pairs map existsb]. fold (pairs l). rewrite IHl. reflexivity. }
+        assert (E3 : map meta_or_null (pairs (z :: rp)) = map mon (z :: rp)) by (unfold pairs; rewrite map_map; reflexivity).
+        rewrite E1, E2, E3. reflexivity.
+      - assert (HR : RunOK s (x :: run')).
+        { apply Forall_forall. intros n Hn. rewrite Forall_forall in Hall. destruct (Hall n Hn) as (H1 & H2 & H3 & H4). repeat split; assumption. }
+        rewrite (list_run s (x :: run') prev b lp HR Hk Hb Hlp).
+        destruct (prl (x :: run')) as [|z rp]; [reflexivity|]. cbn [isnil].
+        assert (E1 : map snd (pairs (z :: rp)) = map jval_of (z :: rp)) by (unfold pairs; rewrite map_map; reflexivity).
+        rewrite E1. reflexivity.
+    Qed.
+
+    (* ---- the groups of a sibling list, one after the other ---- *)
+    Definition GOK (g : sid * list dnode) : Prop :=
+      snd g <> [] /\ Forall (fun n => d_sid n = fst g /\ NodeOK n) (snd g).
+
+    Fixpoint adj_ok' (G : list (sid * list dnode)) : Prop :=
+      match G with
+      | (s1, _) :: (((s2, _) :: _) as G') => s1 <> s2 /\ adj_ok' G'
+      | _ => True
+      end.
+
+    Definition gnodes (G : list (sid * list dnode)) : list dnode := flat_map snd G.
+    Definition gmembers (G : list (sid * list dnode)) : list (bytes * jval) :=
+      flat_map (fun g : sid * list dnode => gmem (fst g) (prl (snd g))) G.
+
+    Lemma gm_nonempty s rp : rp <> [] -> isnil (group_members sch t par (s, pairs rp)) = false.
+    Proof.
+      intros Hne. destruct rp as [|x r]; [contradiction|]. cbn [group_members pairs map].
+      destruct (kind_of sch s); reflexivity.
+    Qed.
+
+    Lemma hd_not_rev s s' run prev : run <> [] -> Forall (fun n => d_sid n = s) run -> s <> s' -> hd_not s' (rev run ++ prev).
+    Proof.
+      intros Hne Hall Hd. destruct (rev run) as [|y r] eqn:E.
+      - exfalso. apply Hne. rewrite <- (rev_involutive run), E. reflexivity.
+      - cbn [app hd_not]. assert (Hin : In y run) by (apply in_rev; rewrite E; left; reflexivity).
+        rewrite Forall_forall in Hall. rewrite (Hall y Hin). exact Hd.
+    Qed.
+
+    Lemma groups_seq G : forall prev lp,
+      Forall GOK G -> adj_ok' G -> match G with (s, _) :: _ => hd_not s prev | [] => True end -> lp <= L ->
+      sibs par prev (gnodes G) [] (stc lp) =
+        (jr_members (gmembers G) (negb (L <=? lp)), if isnil (prl (gnodes G)) then stc lp else mk_clean L O).
+    Proof.
+      induction G as [|[s run] G' IH]; intros prev lp HG Hadj Hp Hlp; [reflexivity|].
+      inversion HG as [|? ? [Hne Hall] HG']; subst. cbn [fst snd] in *.
+      unfold gnodes, gmembers. cbn [flat_map fst snd]. fold (gnodes G'). fold (gmembers G').
+      rewrite sibs_app. rewrite app_nil_r.
+      assert (Hb : hd_not s (gnodes G')).
+      { destruct G' as [|[s2 r2] G'']; [exact I|]. cbn [adj_ok'] in Hadj. destruct Hadj as [Hd _].
+        inversion HG' as [|? ? [Hne2 Hall2] _]; subst. cbn [fst snd] in *. unfold gnodes. cbn [flat_map snd].
+        destruct r2 as [|y r2']; [contradiction|]. cbn [app hd_not]. pose proof (Forall_inv Hall2) as [Hy _]. rewrite Hy. intro E. apply Hd. symmetry. exact E. }
+      rewrite (group_spec s run prev (gnodes G') lp Hne Hall Hp Hb Hlp).
+      assert (Hadj' : adj_ok' G') by (destruct G' as [|[s2 r2] G'']; [exact I|apply Hadj]).
+      assert (Hp' : match G' with (s0, _) :: _ => hd_not s0 (rev run ++ prev) | [] => True end).
+      { destruct G' as [|[s2 r2] G'']; [exact I|]. cbn [adj_ok'] in Hadj. destruct Hadj as [Hd _].
+        apply (hd_not_rev s s2 run prev Hne); [|exact Hd].
+        apply Forall_forall. intros n Hn. rewrite Forall_forall in Hall. apply (Hall n Hn). }
+      rewrite prl_app, jr_members_app. unfold gmem.
+      destruct (prl run) as [|z rp] eqn:Epr; cbn [isnil app].
+      - rewrite (IH (rev run ++ prev) lp HG' Hadj' Hp' Hlp). rewrite andb_true_r. reflexivity.
+      - change (mk_clean L O) with (stc L).
+        rewrite (IH (rev run ++ prev) L HG' Hadj' Hp' (N.le_refl L)).
+        rewrite N.leb_refl. cbn [negb]. rewrite (gm_nonempty s (z :: rp) ltac:(discriminate)), andb_false_r.
+        destruct (isnil (prl (gnodes G'))); reflexivity.
+    Qed.
+
+    Definition Gn (l : list dnode) : list (sid * list dnode) :=
+      map (fun g : sid * list (dnode * jval) => (fst g, map fst (snd g))) (group_runs (pairs l)).
+
+    Lemma Gn_nodes l : gnodes (Gn l) = l.
+    Proof.
+      unfold gnodes, Gn. rewrite flat_map_concat_map, map_map. cbn [snd].
+      rewrite <- (pairs_map_fst l) at 2. rewrite <- (ungroup_group_runs (pairs l)) at 2.
+      generalize (group_runs (pairs l)). induction l0 as [|g G IH]; [reflexivity|].
+      cbn [map concat ungroup]. rewrite map_app, IH. reflexivity.
+    Qed.
+
+    Lemma Gn_ok l : Forall NodeOK l -> Forall GOK (Gn l).
+    Proof.
+      intro Hall. unfold Gn.
+      apply Forall_forall. intros g Hg. apply in_map_iff in Hg. destruct Hg as ([s runP] & <- & Hin). cbn [fst snd]. split.
+      - pose proof (group_runs_nonempty (pairs l) _ Hin) as Hne. cbn [snd] in Hne. destruct runP; [contradiction|discriminate].
+      - cbn [fst snd]. apply Forall_forall. intros n Hn. apply in_map_iff in Hn. destruct Hn as (x & <- & Hx).
+        destruct (group_runs_in (pairs l) (s, runP) x Hin Hx) as [H1 H2]. cbn [fst] in H2. split; [exact H2|].
+        unfold pairs in H1. apply in_map_iff in H1. destruct H1 as (c & <- & Hc). cbn [fst]. rewrite Forall_forall in Hall. apply Hall, Hc.
+    Qed.
+    (* ---- the groups of the printed nodes are what is left of the groups of all nodes ---- *)
+    Lemma group_runs_sorted {A} (l : list (dnode * A)) :
+      StronglySorted (fun a b => d_sid (fst a) <= d_sid (fst b)) l ->
+      StronglySorted (fun g1 g2 : sid * list (dnode * A) => fst g1 < fst g2) (group_runs l).
+    Proof.
+      induction l as [|x l IH]; intro HS; [constructor|].
+      apply StronglySorted_inv in HS. destruct HS as [HSl Hx]. specialize (IH HSl).
+      cbn [group_runs]. destruct (group_runs l) as [|[s run] gs] eqn:E; [repeat constructor|].
+      assert (Hge : forall g, In g ((s, run) :: gs) -> d_sid (fst x) <= fst g).
+      { intros g Hg. rewrite <- E in Hg. pose proof (group_runs_nonempty l g Hg) as Hne. destruct (snd g) as [|y r] eqn:Eg; [contradiction|].
+        assert (Hy : In y (snd g)) by (rewrite Eg; left; reflexivity).
+        destruct (group_runs_in l g y Hg Hy) as [Hin Hsid]. rewrite <- Hsid. rewrite Forall_forall in Hx. apply Hx, Hin. }
+      apply StronglySorted_inv in IH. destruct IH as [IHgs Hs].
+      pose proof (Hge (s, run) (or_introl eq_refl)) as H2. cbn [fst] in H2.
+      destruct (s =? d_sid (fst x)) eqn:Es.
+      - constructor; [exact IHgs|exact Hs].
+      - apply N.eqb_neq in Es. constructor; [constructor; assumption|].
+        constructor.
+        + cbn [fst]. lia.
+        + rewrite Forall_forall in Hs |- *. intros g Hg. pose proof (Hs g Hg) as H1. cbn [fst] in H1 |- *. lia.
+    Qed.
+
+    Fixpoint adj_okA {A} (G : list (sid * list (dnode * A))) : Prop :=
+      match G with
+      | (s1, _) :: (((s2, _) :: _) as G') => s1 <> s2 /\ adj_okA G'
+      | _ => True
+      end.
+
+    Lemma group_runs_block {A} s (run : list (dnode * A)) l :
+      run <> [] -> Forall (fun x => d_sid (fst x) = s) run ->
+      match group_runs l with (s2, _) :: _ => s <> s2 | [] => True end ->
+      group_runs (run ++ l) = (s, run) :: group_runs l.
+    Proof.
+      intros Hne Hall Hhd. induction run as [|x r IH]; [contradiction|].
+      pose proof (Forall_inv Hall) as Hx. pose proof (Forall_inv_tail Hall) as Hr. cbn beta in Hx. cbn [app group_runs].
+      destruct r as [|y r'].
+      - cbn [app]. destruct (group_runs l) as [|[s2 r2] gs]; [rewrite Hx; reflexivity|].
+        assert (E : (s2 =? d_sid (fst x)) = false) by (apply N.eqb_neq; rewrite Hx; intro; apply Hhd; symmetry; assumption). rewrite E, Hx. reflexivity.
+      - rewrite IH; [|discriminate|exact Hr]. rewrite Hx, N.eqb_refl. reflexivity.
+    Qed.
+
+    Lemma group_runs_ungroup {A} (G : list (sid * list (dnode * A))) :
+      Forall (fun g => snd g <> [] /\ Forall (fun x => d_sid (fst x) = fst g) (snd g)) G -> adj_okA G ->
+      group_runs (ungroup G) = G.
+    Proof.
+      induction G as [|[s run] G' IH]; intros HG Ha; [reflexivity|].
+      inversion HG as [|? ? [Hne Hall] HG']; subst. cbn [fst snd] in *. cbn [ungroup snd].
+      assert (Ha' : adj_okA G') by (destruct G' as [|[s2 r2] G'']; [exact I|apply Ha]).
+      rewrite (group_runs_block s run (ungroup G') Hne Hall); rewrite (IH HG' Ha'); [reflexivity|].
+      destruct G' as [|[s2 r2] G'']; [exact I|]. apply Ha.
+    Qed.
+
+    Definition Gp (G : list (sid * list dnode)) : list (sid * list (dnode * jval)) :=
+      flat_map (fun g : sid * list dnode => if isnil (prl (snd g)) then [] else [(fst g, pairs (prl (snd g)))]) G.
+
+    Lemma Gp_ungroup G : ungroup (Gp G) = pairs (prl (gnodes G)).
+    Proof.
+      induction G as [|g G IH]; [reflexivity|]. unfold Gp, gnodes. cbn [flat_map]. fold (Gp G). fold (gnodes G).
+      rewrite prl_app, pairs_app, <- IH. destruct (prl (snd g)); reflexivity.
+    Qed.
+
+    Lemma Gp_members G : flat_map (group_members sch t par) (Gp G) = gmembers G.
+    Proof.
+      induction G as [|g G IH]; [reflexivity|]. unfold Gp, gmembers. cbn [flat_map]. fold (Gp G). fold (gmembers G).
+      rewrite flat_map_app, IH. unfold gmem. destruct (prl (snd g)); cbn [isnil flat_map app]; rewrite ?app_nil_r; reflexivity.
+    Qed.
+
+    Lemma Gp_in G g' : In g' (Gp G) ->
+      exists g, In g G /\ fst g = fst g' /\ snd g' = pairs (prl (snd g)) /\ prl (snd g) <> [].
+    Proof.
+      induction G as [|g G IH]; intro H; [contradiction|]. unfold Gp in H. cbn [flat_map] in H. fold (Gp G) in H.
+      apply in_app_or in H. destruct H as [H|H].
+      - destruct (prl (snd g)) as [|z rp] eqn:E; cbn [isnil] in H; [contradiction|]. destruct H as [<-|[]].
+        exists g. cbn [fst snd]. rewrite E. repeat split; [left; reflexivity|discriminate].
+      - destruct (IH H) as (g0 & H1 & H2). exists g0. split; [right; exact H1|exact H2].
+    Qed.
+
+    Lemma Gp_sorted G :
+      StronglySorted (fun a b : sid * list dnode => fst a < fst b) G ->
+      StronglySorted (fun a b : sid * list (dnode * jval) => fst a < fst b) (Gp G).
+    Proof.
+      induction 1 as [|g G HS IH Hg]; [constructor|]. unfold Gp. cbn [flat_map]. fold (Gp G).
+      destruct (isnil (prl (snd g))); [exact IH|]. cbn [app]. constructor; [exact IH|].
+      apply Forall_forall. intros g' Hg'. destruct (Gp_in G g' Hg') as (g0 & Hin & Hf & _). cbn [fst]. rewrite <- Hf.
+      rewrite Forall_forall in Hg. apply Hg, Hin.
+    Qed.
+
+    Lemma sorted_adj {A} (G : list (sid * list (dnode * A))) :
+      StronglySorted (fun a b : sid * list (dnode * A) => fst a < fst b) G -> adj_okA G.
+    Proof.
+      induction 1 as [|[s1 r1] G HS IH Hg]; [exact I|]. destruct G as [|[s2 r2] G']; [exact I|]. cbn [adj_okA]. split; [|exact IH].
+      pose proof (Forall_inv Hg) as H. cbn [fst] in H. lia.
+    Qed.
+
+    Lemma sorted_adj' (G : list (sid * list dnode)) :
+      StronglySorted (fun a b : sid * list dnode => fst a < fst b) G -> adj_ok' G.
+    Proof.
+      induction 1 as [|[s1 r1] G HS IH Hg]; [exact I|]. destruct G as [|[s2 r2] G']; [exact I|]. cbn [adj_ok']. split; [|exact IH].
+      pose proof (Forall_inv Hg) as H. cbn [fst] in H. lia.
+    Qed.
+
+    Definition sid_le (a b : dnode) : Prop := d_sid a <= d_sid b.
+
+    Lemma Gn_sorted l : StronglySorted sid_le l -> StronglySorted (fun a b : sid * list dnode => fst a < fst b) (Gn l).
+    Proof.
+      intro HS. unfold Gn.
+      assert (H : StronglySorted (fun g1 g2 : sid * list (dnode * jval) => fst g1 < fst g2) (group_runs (pairs l))).
+      { apply group_runs_sorted. unfold pairs. induction HS as [|x l HS IH Hx]; [constructor|]. cbn [map]. constructor; [exact IH|].
+        apply Forall_forall. intros y Hy. apply in_map_iff in Hy. destruct Hy as (c & <- & Hc). cbn [fst]. rewrite Forall_forall in Hx. apply Hx, Hc. }
+      induction H as [|g G HG IH Hg]; [constructor|]. cbn [map]. constructor; [exact IH|].
+      apply Forall_forall. intros g' Hg'. apply in_map_iff in Hg'. destruct Hg' as (g0 & <- & Hin). cbn [fst]. rewrite Forall_forall in Hg. apply Hg, Hin.
+    Qed.
+
+    Lemma Gn_members_prune l : Forall NodeOK l -> StronglySorted sid_le l -> gmembers (Gn l) = assemble sch t par (pairs (prl l)).
+    Proof.
+      intros Hall HS. unfold assemble. rewrite <- Gp_members.
+      assert (E : group_runs (pairs (prl l)) = Gp (Gn l)).
+      { rewrite <- (Gn_nodes l) at 1. rewrite <- Gp_ungroup. apply group_runs_ungroup.
+        - apply Forall_forall. intros g' Hg'. destruct (Gp_in _ g' Hg') as (g & Hin & Hf & Hs & Hne). split.
+          + rewrite Hs. destruct (prl (snd g)); [contradiction|discriminate].
+          + rewrite Hs. apply Forall_forall. intros x Hx. unfold pairs in Hx. apply in_map_iff in Hx. destruct Hx as (c & <- & Hc). cbn [fst]. rewrite <- Hf.
+            pose proof (Gn_ok l Hall) as HG. rewrite Forall_forall in HG. destruct (HG g Hin) as [_ Hg].
+            assert (Hsids : Forall (fun n => d_sid n = fst g) (snd g)) by (apply Forall_forall; intros n Hn; rewrite Forall_forall in Hg; apply (Hg n Hn)).
+            pose proof (prl_sids _ _ Hsids) as Hp. rewrite Forall_forall in Hp. apply Hp, Hc.
+        - apply sorted_adj, Gp_sorted, Gn_sorted, HS. }
+      rewrite E. reflexivity.
+    Qed.
+
+    Lemma sib_spec_group l lp :
+      Forall NodeOK l -> StronglySorted sid_le l -> lp <= L ->
+      jsib par [] l (stc lp) =
+        (jr_members (assemble sch t par (pairs (prl l))) (negb (L <=? lp)), match prl l with [] => stc lp | _ => mk_clean L O end).
+    Proof.
+      intros Hall HS Hlp. rewrite jsib_sibs. rewrite <- (Gn_nodes l) at 1.
+      rewrite (groups_seq (Gn l) [] lp (Gn_ok l Hall) (sorted_adj' _ (Gn_sorted l HS))); [|destruct (Gn l) as [|[s r] G]; exact I|exact Hlp].
+      rewrite Gn_nodes, (Gn_members_prune l Hall HS). destruct (prl l); reflexivity.
+    Qed.
+  End Group.
+
+  (* ---------- every node, every sibling list ---------- *)
+  Lemma sorted_sids p l : CanonAt sch p l -> StronglySorted sid_le l.
+  Proof.
+    intro H. pose proof (canon_strongly_sorted sch p l H) as HS. clear H.
+    induction HS as [|x l HS IH Hx]; [constructor|]. constructor; [exact IH|].
+    rewrite Forall_forall in *. intros y Hy. unfold sid_le. destruct (Hx y Hy) as [H1|[H1 _]]; lia.
+  Qed.
+
+  Lemma sib_spec_of_ispec l : Forall ISpec l -> SibSpec l.
+  Proof.
+    intros HI par st p HP HD Hnf Hlp Hlv HQ HO.
+    destruct st as [lv lp o f]. unfold no_first in Hnf. cbn [j_first j_level j_lp j_open] in *. subst f.
+    assert (Hall : Forall (NodeOK p) l).
+    { destruct HP as [_ HPn]. apply Forall_forall. intros n Hn. rewrite Forall_forall in HPn, HD, HI. unfold NodeOK. auto. }
+    pose proof (sib_spec_group par lv o p HQ Hlv HO l lp Hall (sorted_sids p l HP) Hlp) as E. unfold stc in E. exact E.
+  Qed.
+
+  Theorem ispec_all n : ISpec n.
+  Proof.
+    induction n as [s v d m ch IH] using dnode_ind'. apply ispec_of_sib. cbn [d_ch]. apply sib_spec_of_ispec, IH.
+  Qed.
+
+  Theorem sib_spec_all l : SibSpec l.
+  Proof. apply sib_spec_of_ispec, Forall_forall. intros n _. apply ispec_all. Qed.
+
+  (* json_print_data() writes the rendering of the RFC 7951 value of the nodes the selection keeps *)
+  Theorem json_print_sm_doc f :
+    Canon sch f -> Forall JD f ->
+    json_print_sm sch t jk sel f = json_doc sch t jk (prune sel f).
+  Proof.
+    intros HC HD. unfold json_print_sm, json_doc, json_tree. rewrite jrender_obj.
+    destruct f as [|x f']; [reflexivity|].
+    rewrite (sib_spec_all (x :: f') None (mk_jst 1 0 [] None) None HC HD).
+    - reflexivity.
+    - reflexivity.
+    - unfold lp_ok. cbn [j_lp j_level]. lia.
+    - cbn [j_level]. lia.
+    - intros _. reflexivity.
+    - reflexivity.
+  Qed.
+End Equiv.
+
+(* ====================================================================================== *)
+(* the theorems about the printer itself                                                   *)
+(* ====================================================================================== *)
+Lemma parents_ltb_spec sch : parents_ltb sch = true -> forall s i q, lookup sch s = Some i -> si_parent i = Some q -> q < s.
+Proof.
+  unfold parents_ltb. rewrite forallb_forall. intros H s i q Hl Hp. specialize (H _ (lookup_In _ _ _ Hl)). cbn [fst snd] in H.
+  rewrite Hp in H. lia.
+Qed.
+
+Lemma prune_node_all n : prune_node sel_all n = n.
+Proof.
+  induction n as [s v d m ch IH] using dnode_ind'. cbn [prune_node]. f_equal.
+  induction IH as [|c l Hc _ IHl]; [reflexivity|]. cbn [flat_map]. unfold sel_all at 1. cbn [app]. rewrite Hc, IHl. reflexivity.
+Qed.
+Lemma prune_all f : prune sel_all f = f.
+Proof. induction f as [|c l IH]; [reflexivity|]. unfold prune in *. cbn [flat_map]. unfold sel_all at 1. cbn [app]. rewrite prune_node_all, IH. reflexivity. Qed.
+
+(* for every node selection the printer writes the rendering of the value of the selected part *)
+Theorem json_print_sel_doc sch t jk (SV : bytes -> Prop) (sel : dnode -> bool) f :
+  tabs_okb sch t = true -> parents_ltb sch = true -> Canon sch f -> Forall (JDocN sch t jk SV) f ->
+  json_print sch t jk sel f = json_doc sch t jk (prune sel f).
+Proof.
+  intros Ht Hp HC HD. unfold json_print.
+  apply (json_print_sm_doc sch t jk sel SV Ht (parents_ltb_spec sch Hp) f HC HD).
+Qed.
+
+Theorem json_print_all_doc sch t jk (SV : bytes -> Prop) f :
+  tabs_okb sch t = true -> parents_ltb sch = true -> Canon sch f -> Forall (JDocN sch t jk SV) f ->
+  json_print_all sch t jk f = json_doc sch t jk f.
+Proof.
+  intros Ht Hp HC HD. unfold json_print_all. rewrite (json_print_sel_doc sch t jk SV sel_all f Ht Hp HC HD), prune_all. reflexivity.
+Qed.
+
+Lemma JDocN_prune sch t jk (SV : bytes -> Prop) (sel : dnode -> bool) n :
+  JDocN sch t jk SV n -> JDocN sch t jk SV (prune_node sel n).
+Proof.
+  induction n as [s v d m ch IH] using dnode_ind'. intro HD.
+  rewrite JDocN_unfold in HD. destruct HD as (Hany & Hval & Hmeta & Hnd & HDch).
+  cbn [prune_node]. rewrite JDocN_unfold. repeat split; try assumption.
+  induction ch as [|c ch IHc]; [constructor|]. inversion IH as [|? ? Hc Hr]; subst.
+  inversion HDch as [|? ? Dc Dr]; subst. cbn [flat_map]. destruct (sel c); cbn [app]; [constructor; [apply Hc, Dc|]|]; apply IHc; assumption.
+Qed.
+
+(* the rendering of the selected part of a forest is read back as the selected part *)
+Theorem json_doc_roundtrip_sel_proof sch t jk (sel : dnode -> bool) f :
+  tabs_okb sch t = true -> Canon sch f -> Forall (JDocN sch t jk SV_ly) f ->
+  json_parse sch t jk (json_doc sch t jk (prune sel f)) = Some (clear_dflt (prune sel f)).
+Proof.
+  intros Ht HC HD. unfold json_parse.
+  assert (HP' : Forall (Placed sch None) (prune sel f)) by (apply Forall_prune; [intro n; apply Placed_prune|apply Canon_Placed, HC]).
+  assert (HD' : Forall (JDocN sch t jk SV_ly) (prune sel f)) by (apply Forall_prune; [intro n; apply JDocN_prune|exact HD]).
+  rewrite (jv_text_doc sch t jk SV_ly Ht SV_ly_key ly_rdstr (prune sel f) ly_rdstr_ok HP' HD').
+  rewrite (conv_tree sch t jk SV_ly Ht (prune sel f) HP' HD'). reflexivity.
+Qed.
+
+(* ... and a standard reader reads it as the RFC 7951 value of the selected part *)
+Theorem json_doc_std_sel_proof sch t jk (sel : dnode -> bool) f :
+  tabs_okb sch t = true -> Canon sch f -> Forall (JDocN sch t jk utf8_nonul) f ->
+  std_json_value (json_doc sch t jk (prune sel f)) = Some (json_tree sch t jk (prune sel f)).
+Proof.
+  intros Ht HC HD. unfold std_json_value.
+  assert (HP' : Forall (Placed sch None) (prune sel f)) by (apply Forall_prune; [intro n; apply Placed_prune|apply Canon_Placed, HC]).
+  assert (HD' : Forall (JDocN sch t jk utf8_nonul) (prune sel f)) by (apply Forall_prune; [intro n; apply JDocN_prune|exact HD]).
+  exact (jv_text_doc sch t jk utf8_nonul Ht utf8_nonul_key std_rdstr (prune sel f) std_rdstr_ok HP' HD').
+Qed.
+
+Theorem json_print_roundtrip_sel_proof sch t jk (sel : dnode -> bool) f :
+  tabs_okb sch t = true -> parents_ltb sch = true -> Canon sch f -> Forall (JDocN sch t jk SV_ly) f ->
+  json_parse sch t jk (json_print sch t jk sel f) = Some (clear_dflt (prune sel f)).
+Proof.
+  intros Ht Hp HC HD. rewrite (json_print_sel_doc sch t jk SV_ly sel f Ht Hp HC HD). apply json_doc_roundtrip_sel_proof; assumption.
+Qed.
+
+Theorem json_print_std_sel_proof sch t jk (sel : dnode -> bool) f :
+  tabs_okb sch t = true -> parents_ltb sch = true -> Canon sch f -> Forall (JDocN sch t jk utf8_nonul) f ->
+  std_json_value (json_print sch t jk sel f) = Some (json_tree sch t jk (prune sel f)).
+Proof.
+  intros Ht Hp HC HD. rewrite (json_print_sel_doc sch t jk utf8_nonul sel f Ht Hp HC HD). apply json_doc_std_sel_proof; assumption.
+Qed.
+
+Theorem json_print_roundtrip_proof sch t jk f :
+  tabs_okb sch t = true -> parents_ltb sch = true -> Canon sch f -> Forall (JDocN sch t jk SV_ly) f ->
+  json_parse sch t jk (json_print_all sch t jk f) = Some (clear_dflt f).
+Proof.
+  intros Ht Hp HC HD. rewrite (json_print_all_doc sch t jk SV_ly f Ht Hp HC HD). apply json_doc_roundtrip_proof; assumption.
+Qed.
+
+Theorem json_print_std_proof sch t jk f :
+  tabs_okb sch t = true -> parents_ltb sch = true -> Canon sch f -> Forall (JDocN sch t jk utf8_nonul) f ->
+  std_json_value (json_print_all sch t jk f) = Some (json_tree sch t jk f).
+Proof.
+  intros Ht Hp HC HD. rewrite (json_print_all_doc sch t jk utf8_nonul f Ht Hp HC HD). apply json_doc_std_proof; assumption.
+Qed.
